@@ -85,13 +85,29 @@ def run_reopen(acc, reuse2, clear1, clear2):
         if os.path.isdir(d) == clear1:
             return False                      # removed iff clear=True once the last sharer is released
         up2 = Upstream()
+        refused = False
+        before = sorted(os.listdir(d)) if os.path.isdir(d) else None
         try:
             ds2 = _pipeline(up2).diskcache(cache_dir=d, reuse=reuse2, clear=clear2)
         except RuntimeError:
-            # a non-empty directory with reuse=False is refused
-            return (not reuse2) and os.path.isdir(d) and len(os.listdir(d)) > 0
-        if (not reuse2) and os.path.isdir(d) and not clear1:
-            return False                      # ... and only then
+            refused = True                    # a non-empty directory with reuse=False is refused
+        if refused:
+            gc.collect()                      # the half-constructed wrapper is released now
+            if reuse2 or before is None or len(before) == 0:
+                return False                  # ... and only then
+            if not os.path.isdir(d) or sorted(os.listdir(d)) != before:
+                return False                  # a refused open must not touch the directory
+            up3 = Upstream()
+            ds3 = _pipeline(up3).diskcache(cache_dir=d, reuse=True, clear=True)
+            if list(ds3) != [_want(i) for i in range(N)]:
+                return False
+            if up3.calls != [0 if acc[i] else 1 for i in range(N)]:
+                return False                  # what was stored before the refused open is still served without recomputation
+            del ds3
+            gc.collect()
+            return not os.path.isdir(d)
+        if (not reuse2) and before:
+            return False
         got = list(ds2)
         if got != [_want(i) for i in range(N)]:
             return False
